@@ -72,4 +72,44 @@ def checkRec (H : HashById) : Nat → Bytes → Bool
           | _ => true)
     | none => false
 
+/-! ### C04: signing attaches one verifiable COSE_Sign1 and changes nothing else -/
+
+structure SignView where
+  protectedBytes : Bytes
+  signature : Bytes
+  message : Bytes          -- the Sig_structure the signature must verify over
+  deriving Repr
+
+/-- `output` equals `input` with exactly one COSE_Sign1 block appended to the authentication wrapper: same tag, same
+members in the same order, every member other than key 2 identical; the wrapper is the same list plus one element
+`bstr .cbor #6.18([protected, {}, nil, signature])`; the protected header is `{1: alg, 4: bstr .cbor keyId}`.
+Returns what has to be verified cryptographically. -/
+def checkSigned (input output : Bytes) (coseAlg keyId : Int) : Option SignView :=
+  match decodeStrict input, decodeStrict output with
+  | some (.tag 107 (.map mi)), some (.tag 107 (.map mo)) =>
+    if mi.length ≠ mo.length then none else
+    let pairsOk := (mi.zip mo).all (fun (a, b) => a.1 == b.1 && (a.1 == .uint 2 || a.2 == b.2))
+    if !pairsOk then none else
+    match Cbor.lookup (.uint 2) mi, Cbor.lookup (.uint 2) mo with
+    | some (.bstr wi), some (.bstr wo) =>
+      match decodeStrict wi, decodeStrict wo with
+      | some (.arr li), some (.arr lo) =>
+        if lo.length ≠ li.length + 1 ∨ !(lo.take li.length == li) then none else
+        match lo.getLast?, li.head? with
+        | some (.bstr nb), some (.bstr db) =>
+          match decodeStrict nb, decodeStrict db with
+          | some (.tag 18 (.arr [.bstr prot, .map [], .simple 22, .bstr sig])), some digest =>
+            match decodeStrict prot with
+            | some (.map [(.uint 1, a), (.uint 4, .bstr kid)]) =>
+              if a.toInt? == some coseAlg && (decodeStrict kid).bind Cbor.toInt? == some keyId then
+                some { protectedBytes := prot, signature := sig,
+                       message := enc (.arr [.tstr (utf8 "Signature1"), .bstr prot, .bstr [], .bstr (enc digest)]) }
+              else none
+            | _ => none
+          | _, _ => none
+        | _, _ => none
+      | _, _ => none
+    | _, _ => none
+  | _, _ => none
+
 end SuitVerif.Spec
